@@ -6,7 +6,8 @@ import os, re, shutil, subprocess, sys, glob, time
 from . import run
 
 EXPECTED = {"HexProofs": ["DigitRoundTrip", "HexRoundTrip"],
-            "RlpProofs": ["HdrOfEncStr", "HdrShape", "AcceptedStringIsCanonical", "HdrIsLocal"]}
+            "RlpProofs": ["HdrOfEncStr", "HdrShape", "AcceptedStringIsCanonical", "HdrIsLocal"],
+            "RlpProofsAt": ["HdrIsLocalAt", "AcceptedStringIsCanonicalAt", "HdrOfEncStrAt"]}
 
 
 def main(timeout=1500):
